@@ -322,8 +322,31 @@ func c13appHistories() [][]chain.Block {
 	}
 }
 
+// c13gasHistory: blocks whose second or third transaction crosses the block gas limit of
+// c13gasLimit (the limit is a consensus parameter handed over at InitChain: an instance reopened
+// after the crash has to find it again to re-execute the interrupted block the same way).
+const c13gasLimit = 150000
+
+func c13gasHistory() []chain.Block {
+	send := func(from, to int) chain.Event {
+		return chain.Event{Kind: "tx", Tx: &chain.TxSpec{Msg: "send", From: from, To: to, Amount: 1}}
+	}
+	return []chain.Block{
+		{Events: []chain.Event{send(3, 2), send(4, 2), send(2, 3)}},
+		{Events: []chain.Event{{Kind: "tx", Tx: &chain.TxSpec{Msg: "stake", From: 2, Amount: min}}, send(3, 2), send(4, 2), send(3, 4)}},
+		{Events: []chain.Event{send(3, 2), send(4, 2)}},
+	}
+}
+
 func runC13app(hist []chain.Block, pruning [2]int64, st *c13stats) (out []*c12result) {
+	return runC13appCfg(baseCfg(), hist, pruning, st)
+}
+
+func runC13appCfg(cfg chain.Config, hist []chain.Block, pruning [2]int64, st *c13stats) (out []*c12result) {
 	name := fmt.Sprintf("app history %v pruning=(%d,%d)", blockLabels(hist), pruning[0], pruning[1])
+	if cfg.MaxBlockGas != 0 {
+		name += fmt.Sprintf(" block gas limit %d", cfg.MaxBlockGas)
+	}
 	defer func() {
 		if r := recover(); r != nil {
 			out = append(out, &c12result{"C13|app|panic", name + ": " + fmt.Sprintf("panic: %.300v", r)})
@@ -343,7 +366,6 @@ func runC13app(hist []chain.Block, pruning [2]int64, st *c13stats) (out []*c12re
 			pr = "prune-nothing"
 		}
 	}
-	cfg := baseCfg()
 	cfg.Pruning = pruning
 	db := crashdb.New()
 	d := chain.NewDriverOnDB(cfg, db)
@@ -529,6 +551,23 @@ func C13(tier string) int {
 				}
 			}()
 		}
+	}
+	for _, pr := range appPrunings {
+		pr := pr
+		appRuns++
+		wg.Add(1)
+		sem <- struct{}{}
+		go func() {
+			defer wg.Done()
+			defer func() { <-sem }()
+			gc := baseCfg()
+			gc.MaxBlockGas = c13gasLimit
+			for _, r := range runC13appCfg(gc, c13gasHistory(), pr, st) {
+				mu.Lock()
+				run.Report(r.sig, r.what, map[string]interface{}{"history": blockLabels(c13gasHistory()), "pruning": pr, "max_block_gas": c13gasLimit})
+				mu.Unlock()
+			}
+		}()
 	}
 	wg.Wait()
 	run.Set("app_level_histories_x_prunings", appRuns)
